@@ -5,6 +5,7 @@ import (
 
 	"github.com/veraison/psatoken"
 
+	"verif/harness/extprof"
 	"verif/harness/model"
 	"verif/harness/mon"
 	"verif/harness/obs"
@@ -16,7 +17,7 @@ func init() { register("C14", runC14) }
 // C14: all 65 536 lifecycle values through the state mapping, the validator,
 // both profiles' setters and getters, and getter/Validate on a decoded claim.
 func runC14(c *mon.Ctx) {
-	c.Rule("exhaustive: every uint16 lifecycle value v through LifeCycleToState, IsValid, String, ValidateSecurityLifeCycle, P1/P2 setter+getter on a fresh object and on objects that already hold the same / a neighbouring / a valid value, and getter+Validate of a CBOR-decoded and of a JSON-decoded token carrying v; for each v also the numbers v+2^16, v+0xffff*2^16 and v+2^32 (no state at all) in CBOR and JSON tokens, which must never be accepted nor reported by the getter; distinct = distinct (value) cases, non-trivial = all (each value exercises 10 calls)")
+	c.Rule("exhaustive: every uint16 lifecycle value v through LifeCycleToState, IsValid, String, ValidateSecurityLifeCycle, P1/P2 setter+getter on a fresh object (also on the two extension types embedding them under another canonical name and on struct literals without canonical name) and on objects that already hold the same / a neighbouring / a valid value, and getter+Validate of a CBOR-decoded and of a JSON-decoded token carrying v; for each v also the numbers v+2^16, v+0xffff*2^16 and v+2^32 (no state at all) in CBOR and JSON tokens, which must never be accepted nor reported by the getter; distinct = distinct (value) cases, non-trivial = all (each value exercises 10 calls)")
 	c.Exhaustive(true)
 	c.Floor("values", 65536)
 	g := model.NewGen(c.Seed)
@@ -61,6 +62,25 @@ func runC14(c *mon.Ctx) {
 				bad("ValidateSecurityLifeCycle", err)
 			} else if err != nil && obs.ClassOf(err) != model.WrongSyntax {
 				bad("ValidateSecurityLifeCycle-class", err)
+			}
+			// claims types that EMBED the base implementations under another canonical
+			// name (extension profiles) or under none (struct literals) share the rule
+			for xi, x := range []psatoken.IClaims{extprof.NewExtP1Claims(), extprof.NewExtP2Claims(), &psatoken.P1Claims{}, &psatoken.P2Claims{}} {
+				tag := []string{"ExtP1", "ExtP2", "P1-literal", "P2-literal"}[xi]
+				serr := x.SetSecurityLifeCycle(u)
+				c.Eval()
+				if (serr == nil) != (want >= 0) {
+					bad(tag+".SetSecurityLifeCycle", serr)
+				}
+				obs.SetNumField(x, "SecurityLifeCycle", int64(u))
+				got, gerr := x.GetSecurityLifeCycle()
+				if want >= 0 {
+					if gerr != nil || got != u {
+						bad(tag+".Get-of-assigned-value", fmt.Sprint(got, gerr))
+					}
+				} else if obs.ClassOf(gerr) != model.WrongSyntax {
+					bad(tag+".Get-of-assigned-invalid-value", fmt.Sprint(got, gerr))
+				}
 			}
 			for p := 1; p <= 2; p++ {
 				name := model.P1Name
